@@ -1,0 +1,94 @@
+//! Script driver for the beneficiary history and reward formula (feature `verif-hooks` only).
+
+use super::{
+    DeferredBeneficiaryReward,
+    history::{BeneficiaryHistory, BeneficiaryReadVersion},
+    reward,
+};
+use crate::TxVersion;
+use revm::interpreter::Gas;
+use revm_context::ContextTr;
+use revm_primitives::U256;
+use revm_state::{Account, AccountInfo, AccountStatus};
+
+/// A resolved read: account value and origin chain (newest first), or the blocking writer.
+pub type Resolved = Result<(Option<AccountInfo>, Vec<(usize, usize)>), usize>;
+
+pub struct HistoryDriver(BeneficiaryHistory);
+
+impl HistoryDriver {
+    pub fn new(anchor: Option<AccountInfo>, block_size: usize) -> Self {
+        Self(BeneficiaryHistory::new(anchor, block_size))
+    }
+
+    pub fn record_reward(&self, txid: usize, incarnation: usize, amount: U256) -> bool {
+        self.0.record_execution(
+            &TxVersion::new(txid, incarnation),
+            Some(DeferredBeneficiaryReward::verif_new(amount)),
+            None,
+        )
+    }
+
+    pub fn record_unchanged(&self, txid: usize, incarnation: usize) -> bool {
+        self.0.record_execution(&TxVersion::new(txid, incarnation), None, None)
+    }
+
+    /// Record an absolute snapshot: `Some(info)` for an updated account, `None` for a deletion.
+    pub fn record_snapshot(
+        &self,
+        txid: usize,
+        incarnation: usize,
+        info: Option<AccountInfo>,
+    ) -> bool {
+        let account = match info {
+            Some(info) => {
+                let mut account = Account::from(info);
+                account.mark_touch();
+                account
+            }
+            None => {
+                let mut account = Account::default();
+                account.status = AccountStatus::Touched | AccountStatus::SelfDestructed;
+                account
+            }
+        };
+        self.0.record_execution(&TxVersion::new(txid, incarnation), None, Some(&account))
+    }
+
+    /// Record through the real journal-account classification.
+    pub fn record_account(&self, txid: usize, incarnation: usize, account: &Account) -> bool {
+        self.0.record_execution(&TxVersion::new(txid, incarnation), None, Some(account))
+    }
+
+    pub fn record_estimate(&self, txid: usize, incarnation: usize) -> bool {
+        self.0.record_estimate(&TxVersion::new(txid, incarnation))
+    }
+
+    pub fn invalidate(&self, txid: usize, incarnation: usize) -> bool {
+        self.0.invalidate(&TxVersion::new(txid, incarnation))
+    }
+
+    pub fn resolve_before(&self, txid: usize) -> Resolved {
+        self.0.resolve_before(txid).map(|read| {
+            let (account, version) = read.into_parts();
+            (account, version.verif_origins())
+        })
+    }
+
+    /// Returns `(valid, dependency)`.
+    pub fn validate(&self, txid: usize, expected: &[(usize, usize)]) -> (bool, Option<usize>) {
+        let validation =
+            self.0.validate(txid, &BeneficiaryReadVersion::verif_from_origins(expected));
+        (validation.is_valid(), validation.dependency())
+    }
+}
+
+/// Apply a deferred reward of `amount` to `account` exactly as ordered commit does.
+pub fn apply_reward(amount: U256, account: Option<AccountInfo>) -> AccountInfo {
+    DeferredBeneficiaryReward::verif_new(amount).apply_to(account)
+}
+
+/// The reward grevm would defer or apply for this context and gas.
+pub fn reward_amount<CTX: ContextTr>(context: &CTX, gas: &Gas) -> Option<U256> {
+    reward::verif_reward_amount(context, gas)
+}
